@@ -1,5 +1,5 @@
 CONSTANTS MaxConn = 2  MaxBody = 1  MaxTop = 5  MaxRetry = 1
-CONSTANTS Fix = {1, 2, 3, 4, 6}  Skip = {}
+CONSTANTS Fix = {1, 2, 3, 4, 6, 7}  Skip = {}
 SPECIFICATION MCSpec
 INVARIANT TypeOK
 INVARIANT WordOK
